@@ -512,16 +512,22 @@ def run(tier, seed):
         "reference value; counted in skipped_legacy_on_arrays); when nothing is displayed an exception in one "
         "run only is not compared (empty_display_exceptions)",
     ]
+    from harness.props import dimtype_legs   # legs of Model/DimValues.v + trusted base (workstream dimtype)
+    dimtype_legs.run(rep, PID, tier, seed)
     return rep.finish("proof", ob, trusted_base=core.TRUSTED_BASE_COMMON + [
         "Model/Assemble.v is hand-written; tied to cubepart.py (_assemble_matrix/_assemble_marginal/"
         "_assemble_vector, labels, fills, *_idxs, pairwise_indices) by the correspondence run on sampled "
         "outputs; ALL outputs are covered by the relational oracle on the implementation alone",
-        "Model/Collator.v (order_nodup theorems) is tied to collator.py by the checks C07/C08/C09"])
+        "Model/Collator.v (order_nodup theorems) is tied to collator.py by the checks C07/C08/C09",
+        dimtype_legs.trusted_base()])
 
 
 def replay(path):
     d = json.load(open(path))
     case = d["violation"]["case"]
+    if isinstance(case, dict) and case.get("dimtype_leg"):   # a case of harness/props/dimtype_legs.py
+        from harness.props import dimtype_legs
+        return dimtype_legs.replay_main(PID, case)
     rep = core.Report(PID, "quick", d.get("seed", 0))
     res = cu.check_pair(case)
     n = report_issues(rep, case, res)
